@@ -12,7 +12,7 @@
    step is an instance of the skeleton) is NOT proved: it is validated on every traced run
    by [accepts] (c01_accepts_sound / c01_run_checked below). *)
 From Coq Require Import ZArith Bool List.
-From PV Require Import Model.Evaluate Model.AlgSkeleton Proofs.EvaluateProofs Proofs.AlgSkeletonProofs.
+From PV Require Import Model.Evaluate Model.AlgSkeleton Model.AlgSteps Proofs.EvaluateProofs Proofs.AlgSkeletonProofs Proofs.AlgStepsProofs.
 Open Scope Z_scope.
 
 Section C01.
@@ -107,3 +107,502 @@ Theorem c01_run_checked : forall types tab cs (t : trace ev_val ev_num), Forall 
   ev_accepts types tab cs t = true -> forallb (ev_safe_b types tab cs) (t_init t) = true ->
   Forall (fun st => Forall (ev_Good types tab cs) (s_exposed st)) (t_steps t).
 Proof. exact (fun types tab cs t W => ev_accepts_good types tab cs W t). Qed.
+
+(* ------------------------------------------------------------------------- *)
+(* DESIGN item 5: the step functions of the algorithms (Model/AlgSteps.v) are instances of the skeleton.
+   Each theorem is closed: its hypotheses are the contracts of the abstract components of that model
+   (evaluator contract = C12; flag discipline of variators = C06; "flag of the result is clear" for the
+   PSO position update / CMA-ES sampler / generator; "output ⊆ input" for survival, truncation and archive
+   insertion).  With c01_skeleton_invariant: if every exposed solution is Good before such a step, every
+   exposed solution is Good after it (generic form: c01_model_step_good). *)
+
+(* GeneticAlgorithm.initialize *)
+Theorem c01_ga_initialize_step_ok :
+    forall (Val Num Ty : Type) (decode encode : Ty -> Val -> Val) (F : list Val -> list Num * list Num)
+         (C : list (Num -> Num)) (nabs : Num -> Num) (nadd : Num -> Num -> Num) (nzero : Num) 
+         (niszero : Num -> bool) (types : list Ty) (ev : list (sol Val Num) -> list (jobres Val Num)) 
+         (T : Type) (vary : T -> list (sol Val Num) -> list (sol Val Num))
+         (mutate move : T -> sol Val Num -> sol Val Num) (sample : T -> sol Val Num) (Gen : sol Val Num -> Prop)
+         (sortf : list (sol Val Num) -> list (sol Val Num)),
+       ev_spec Val Num Ty decode encode F C nabs nadd nzero niszero types ev ->
+       (forall (t : T) (ps : list (sol Val Num)) (c : sol Val Num),
+        In c (vary t ps) -> exists p : sol Val Num, In p ps /\ flag_discipline Val Num p c) ->
+       (forall (t : T) (p : sol Val Num), flag_discipline Val Num p (mutate t p)) ->
+       (forall (t : T) (p : sol Val Num), evaluated (move t p) = false) ->
+       (forall t : T, evaluated (sample t) = false) ->
+       (forall s : sol Val Num, Gen s -> evaluated s = false) ->
+       (forall l : list (sol Val Num), incl (sortf l) l) ->
+       forall injected gen : list (sol Val Num),
+       generated Val Num Gen injected gen ->
+       Forall (fun s : sol Val Num => evaluated s = true) injected ->
+       step_ok Val Num ev injected
+         {|
+           s_batches := snd (ga_initialize Val Num ev sortf gen);
+           s_exposed := ga_exposed Val Num (fst (ga_initialize Val Num ev sortf gen))
+         |}.
+Proof. exact ga_initialize_step_ok. Qed.
+
+(* GeneticAlgorithm.iterate *)
+Theorem c01_ga_step_ok :
+    forall (Val Num Ty : Type) (decode encode : Ty -> Val -> Val) (F : list Val -> list Num * list Num)
+         (C : list (Num -> Num)) (nabs : Num -> Num) (nadd : Num -> Num -> Num) (nzero : Num) 
+         (niszero : Num -> bool) (types : list Ty) (ev : list (sol Val Num) -> list (jobres Val Num)) 
+         (T : Type) (vary : T -> list (sol Val Num) -> list (sol Val Num))
+         (mutate move : T -> sol Val Num -> sol Val Num) (sample : T -> sol Val Num) (Gen : sol Val Num -> Prop)
+         (survive : list (sol Val Num) -> list (sol Val Num)),
+       ev_spec Val Num Ty decode encode F C nabs nadd nzero niszero types ev ->
+       (forall (t : T) (ps : list (sol Val Num)) (c : sol Val Num),
+        In c (vary t ps) -> exists p : sol Val Num, In p ps /\ flag_discipline Val Num p c) ->
+       (forall (t : T) (p : sol Val Num), flag_discipline Val Num p (mutate t p)) ->
+       (forall (t : T) (p : sol Val Num), evaluated (move t p) = false) ->
+       (forall t : T, evaluated (sample t) = false) ->
+       (forall s : sol Val Num, Gen s -> evaluated s = false) ->
+       (forall l : list (sol Val Num), incl (survive l) l) ->
+       forall (tape : list (list nat * T)) (st : ga_st Val Num),
+       Forall (fun s : sol Val Num => evaluated s = true) (ga_exposed Val Num st) ->
+       step_ok Val Num ev (ga_exposed Val Num st)
+         {|
+           s_batches := snd (ga_iterate Val Num ev T vary survive tape st);
+           s_exposed := ga_exposed Val Num (fst (ga_iterate Val Num ev T vary survive tape st))
+         |}.
+Proof. exact ga_step_ok. Qed.
+
+(* EvolutionaryStrategy.iterate *)
+Theorem c01_es_step_ok :
+    forall (Val Num Ty : Type) (decode encode : Ty -> Val -> Val) (F : list Val -> list Num * list Num)
+         (C : list (Num -> Num)) (nabs : Num -> Num) (nadd : Num -> Num -> Num) (nzero : Num) 
+         (niszero : Num -> bool) (types : list Ty) (ev : list (sol Val Num) -> list (jobres Val Num)) 
+         (T : Type) (vary : T -> list (sol Val Num) -> list (sol Val Num))
+         (mutate move : T -> sol Val Num -> sol Val Num) (sample : T -> sol Val Num) (Gen : sol Val Num -> Prop)
+         (survive : list (sol Val Num) -> list (sol Val Num)),
+       ev_spec Val Num Ty decode encode F C nabs nadd nzero niszero types ev ->
+       (forall (t : T) (ps : list (sol Val Num)) (c : sol Val Num),
+        In c (vary t ps) -> exists p : sol Val Num, In p ps /\ flag_discipline Val Num p c) ->
+       (forall (t : T) (p : sol Val Num), flag_discipline Val Num p (mutate t p)) ->
+       (forall (t : T) (p : sol Val Num), evaluated (move t p) = false) ->
+       (forall t : T, evaluated (sample t) = false) ->
+       (forall s : sol Val Num, Gen s -> evaluated s = false) ->
+       (forall l : list (sol Val Num), incl (survive l) l) ->
+       forall (ts : list T) (pop : list (sol Val Num)),
+       Forall (fun s : sol Val Num => evaluated s = true) pop ->
+       step_ok Val Num ev pop
+         {|
+           s_batches := snd (es_iterate Val Num ev T vary survive ts pop);
+           s_exposed := fst (es_iterate Val Num ev T vary survive ts pop)
+         |}.
+Proof. exact es_step_ok. Qed.
+
+(* NSGAII.initialize (archive optional; also EpsMOEA / PAES / PESA2 / CMAES-style archive += population) *)
+Theorem c01_nsga2_initialize_step_ok :
+    forall (Val Num Ty : Type) (decode encode : Ty -> Val -> Val) (F : list Val -> list Num * list Num)
+         (C : list (Num -> Num)) (nabs : Num -> Num) (nadd : Num -> Num -> Num) (nzero : Num) 
+         (niszero : Num -> bool) (types : list Ty) (ev : list (sol Val Num) -> list (jobres Val Num)) 
+         (T : Type) (vary : T -> list (sol Val Num) -> list (sol Val Num))
+         (mutate move : T -> sol Val Num -> sol Val Num) (sample : T -> sol Val Num) (Gen : sol Val Num -> Prop)
+         (arch_add : list (sol Val Num) -> sol Val Num -> list (sol Val Num)),
+       ev_spec Val Num Ty decode encode F C nabs nadd nzero niszero types ev ->
+       (forall (t : T) (ps : list (sol Val Num)) (c : sol Val Num),
+        In c (vary t ps) -> exists p : sol Val Num, In p ps /\ flag_discipline Val Num p c) ->
+       (forall (t : T) (p : sol Val Num), flag_discipline Val Num p (mutate t p)) ->
+       (forall (t : T) (p : sol Val Num), evaluated (move t p) = false) ->
+       (forall t : T, evaluated (sample t) = false) ->
+       (forall s : sol Val Num, Gen s -> evaluated s = false) ->
+       (forall (a : list (sol Val Num)) (s : sol Val Num), incl (arch_add a s) (s :: a)) ->
+       forall (injected : list (sol Val Num)) (arch0 : option (list (sol Val Num))) (gen : list (sol Val Num)),
+       generated Val Num Gen injected gen ->
+       incl (oarch Val Num arch0) injected ->
+       Forall (fun s : sol Val Num => evaluated s = true) injected ->
+       step_ok Val Num ev injected
+         {|
+           s_batches := snd (nsga2_initialize Val Num ev arch_add arch0 gen);
+           s_exposed := pa_exposed Val Num (fst (nsga2_initialize Val Num ev arch_add arch0 gen))
+         |}.
+Proof. exact nsga2_initialize_step_ok. Qed.
+
+(* NSGAII.iterate (with or without archive) *)
+Theorem c01_nsga2_step_ok :
+    forall (Val Num Ty : Type) (decode encode : Ty -> Val -> Val) (F : list Val -> list Num * list Num)
+         (C : list (Num -> Num)) (nabs : Num -> Num) (nadd : Num -> Num -> Num) (nzero : Num) 
+         (niszero : Num -> bool) (types : list Ty) (ev : list (sol Val Num) -> list (jobres Val Num)) 
+         (T : Type) (vary : T -> list (sol Val Num) -> list (sol Val Num))
+         (mutate move : T -> sol Val Num -> sol Val Num) (sample : T -> sol Val Num) (Gen : sol Val Num -> Prop)
+         (survive : list (sol Val Num) -> list (sol Val Num))
+         (arch_add : list (sol Val Num) -> sol Val Num -> list (sol Val Num)),
+       ev_spec Val Num Ty decode encode F C nabs nadd nzero niszero types ev ->
+       (forall (t : T) (ps : list (sol Val Num)) (c : sol Val Num),
+        In c (vary t ps) -> exists p : sol Val Num, In p ps /\ flag_discipline Val Num p c) ->
+       (forall (t : T) (p : sol Val Num), flag_discipline Val Num p (mutate t p)) ->
+       (forall (t : T) (p : sol Val Num), evaluated (move t p) = false) ->
+       (forall t : T, evaluated (sample t) = false) ->
+       (forall s : sol Val Num, Gen s -> evaluated s = false) ->
+       (forall l : list (sol Val Num), incl (survive l) l) ->
+       (forall (a : list (sol Val Num)) (s : sol Val Num), incl (arch_add a s) (s :: a)) ->
+       forall (tape : list (list nat * T)) (st : pa_st Val Num),
+       Forall (fun s : sol Val Num => evaluated s = true) (pa_exposed Val Num st) ->
+       step_ok Val Num ev (pa_exposed Val Num st)
+         {|
+           s_batches := snd (nsga2_iterate Val Num ev T vary survive arch_add tape st);
+           s_exposed := pa_exposed Val Num (fst (nsga2_iterate Val Num ev T vary survive arch_add tape st))
+         |}.
+Proof. exact nsga2_step_ok. Qed.
+
+(* NSGAIII.iterate *)
+Theorem c01_nsga3_step_ok :
+    forall (Val Num Ty : Type) (decode encode : Ty -> Val -> Val) (F : list Val -> list Num * list Num)
+         (C : list (Num -> Num)) (nabs : Num -> Num) (nadd : Num -> Num -> Num) (nzero : Num) 
+         (niszero : Num -> bool) (types : list Ty) (ev : list (sol Val Num) -> list (jobres Val Num)) 
+         (T : Type) (vary : T -> list (sol Val Num) -> list (sol Val Num))
+         (mutate move : T -> sol Val Num -> sol Val Num) (sample : T -> sol Val Num) (Gen : sol Val Num -> Prop)
+         (survive : list (sol Val Num) -> list (sol Val Num)),
+       ev_spec Val Num Ty decode encode F C nabs nadd nzero niszero types ev ->
+       (forall (t : T) (ps : list (sol Val Num)) (c : sol Val Num),
+        In c (vary t ps) -> exists p : sol Val Num, In p ps /\ flag_discipline Val Num p c) ->
+       (forall (t : T) (p : sol Val Num), flag_discipline Val Num p (mutate t p)) ->
+       (forall (t : T) (p : sol Val Num), evaluated (move t p) = false) ->
+       (forall t : T, evaluated (sample t) = false) ->
+       (forall s : sol Val Num, Gen s -> evaluated s = false) ->
+       (forall l : list (sol Val Num), incl (survive l) l) ->
+       forall (tape : list (list nat * T)) (pop : list (sol Val Num)),
+       Forall (fun s : sol Val Num => evaluated s = true) pop ->
+       step_ok Val Num ev pop
+         {|
+           s_batches := snd (plus_iterate Val Num ev T vary survive tape pop);
+           s_exposed := fst (plus_iterate Val Num ev T vary survive tape pop)
+         |}.
+Proof. exact nsga3_step_ok. Qed.
+
+(* SPEA2.iterate *)
+Theorem c01_spea2_step_ok :
+    forall (Val Num Ty : Type) (decode encode : Ty -> Val -> Val) (F : list Val -> list Num * list Num)
+         (C : list (Num -> Num)) (nabs : Num -> Num) (nadd : Num -> Num -> Num) (nzero : Num) 
+         (niszero : Num -> bool) (types : list Ty) (ev : list (sol Val Num) -> list (jobres Val Num)) 
+         (T : Type) (vary : T -> list (sol Val Num) -> list (sol Val Num))
+         (mutate move : T -> sol Val Num -> sol Val Num) (sample : T -> sol Val Num) (Gen : sol Val Num -> Prop)
+         (survive : list (sol Val Num) -> list (sol Val Num)),
+       ev_spec Val Num Ty decode encode F C nabs nadd nzero niszero types ev ->
+       (forall (t : T) (ps : list (sol Val Num)) (c : sol Val Num),
+        In c (vary t ps) -> exists p : sol Val Num, In p ps /\ flag_discipline Val Num p c) ->
+       (forall (t : T) (p : sol Val Num), flag_discipline Val Num p (mutate t p)) ->
+       (forall (t : T) (p : sol Val Num), evaluated (move t p) = false) ->
+       (forall t : T, evaluated (sample t) = false) ->
+       (forall s : sol Val Num, Gen s -> evaluated s = false) ->
+       (forall l : list (sol Val Num), incl (survive l) l) ->
+       forall (tape : list (list nat * T)) (pop : list (sol Val Num)),
+       Forall (fun s : sol Val Num => evaluated s = true) pop ->
+       step_ok Val Num ev pop
+         {|
+           s_batches := snd (plus_iterate Val Num ev T vary survive tape pop);
+           s_exposed := fst (plus_iterate Val Num ev T vary survive tape pop)
+         |}.
+Proof. exact spea2_step_ok. Qed.
+
+(* EpsNSGAII: NSGAII.iterate followed, in the same step, by an optional restart *)
+Theorem c01_epsnsga2_step_ok :
+    forall (Val Num Ty : Type) (decode encode : Ty -> Val -> Val) (F : list Val -> list Num * list Num)
+         (C : list (Num -> Num)) (nabs : Num -> Num) (nadd : Num -> Num -> Num) (nzero : Num) 
+         (niszero : Num -> bool) (types : list Ty) (ev : list (sol Val Num) -> list (jobres Val Num)) 
+         (T : Type) (vary : T -> list (sol Val Num) -> list (sol Val Num))
+         (mutate move : T -> sol Val Num -> sol Val Num) (sample : T -> sol Val Num) (Gen : sol Val Num -> Prop)
+         (survive : list (sol Val Num) -> list (sol Val Num))
+         (arch_add : list (sol Val Num) -> sol Val Num -> list (sol Val Num)),
+       ev_spec Val Num Ty decode encode F C nabs nadd nzero niszero types ev ->
+       (forall (t : T) (ps : list (sol Val Num)) (c : sol Val Num),
+        In c (vary t ps) -> exists p : sol Val Num, In p ps /\ flag_discipline Val Num p c) ->
+       (forall (t : T) (p : sol Val Num), flag_discipline Val Num p (mutate t p)) ->
+       (forall (t : T) (p : sol Val Num), evaluated (move t p) = false) ->
+       (forall t : T, evaluated (sample t) = false) ->
+       (forall s : sol Val Num, Gen s -> evaluated s = false) ->
+       (forall l : list (sol Val Num), incl (survive l) l) ->
+       (forall (a : list (sol Val Num)) (s : sol Val Num), incl (arch_add a s) (s :: a)) ->
+       forall (tape : list (list nat * T)) (rt : option (list (list nat * T))) (st : pa_st Val Num),
+       Forall (fun s : sol Val Num => evaluated s = true) (pa_exposed Val Num st) ->
+       step_ok Val Num ev (pa_exposed Val Num st)
+         {|
+           s_batches := snd (epsnsga2_step Val Num ev T vary survive arch_add tape rt st);
+           s_exposed := pa_exposed Val Num (fst (epsnsga2_step Val Num ev T vary survive arch_add tape rt st))
+         |}.
+Proof. exact epsnsga2_step_ok. Qed.
+
+(* AdaptiveTimeContinuationExtension.restart *)
+Theorem c01_restart_step_ok :
+    forall (Val Num Ty : Type) (decode encode : Ty -> Val -> Val) (F : list Val -> list Num * list Num)
+         (C : list (Num -> Num)) (nabs : Num -> Num) (nadd : Num -> Num -> Num) (nzero : Num) 
+         (niszero : Num -> bool) (types : list Ty) (ev : list (sol Val Num) -> list (jobres Val Num)) 
+         (T : Type) (vary : T -> list (sol Val Num) -> list (sol Val Num))
+         (mutate move : T -> sol Val Num -> sol Val Num) (sample : T -> sol Val Num) (Gen : sol Val Num -> Prop)
+         (arch_add : list (sol Val Num) -> sol Val Num -> list (sol Val Num)),
+       ev_spec Val Num Ty decode encode F C nabs nadd nzero niszero types ev ->
+       (forall (t : T) (ps : list (sol Val Num)) (c : sol Val Num),
+        In c (vary t ps) -> exists p : sol Val Num, In p ps /\ flag_discipline Val Num p c) ->
+       (forall (t : T) (p : sol Val Num), flag_discipline Val Num p (mutate t p)) ->
+       (forall (t : T) (p : sol Val Num), evaluated (move t p) = false) ->
+       (forall t : T, evaluated (sample t) = false) ->
+       (forall s : sol Val Num, Gen s -> evaluated s = false) ->
+       (forall (a : list (sol Val Num)) (s : sol Val Num), incl (arch_add a s) (s :: a)) ->
+       forall (rt : list (list nat * T)) (st : pa_st Val Num),
+       Forall (fun s : sol Val Num => evaluated s = true) (pa_exposed Val Num st) ->
+       step_ok Val Num ev (pa_exposed Val Num st)
+         {|
+           s_batches := snd (restart Val Num ev T vary arch_add rt st);
+           s_exposed := pa_exposed Val Num (fst (restart Val Num ev T vary arch_add rt st))
+         |}.
+Proof. exact restart_step_ok. Qed.
+
+(* EpsMOEA.iterate (steady state) *)
+Theorem c01_epsmoea_step_ok :
+    forall (Val Num Ty : Type) (decode encode : Ty -> Val -> Val) (F : list Val -> list Num * list Num)
+         (C : list (Num -> Num)) (nabs : Num -> Num) (nadd : Num -> Num -> Num) (nzero : Num) 
+         (niszero : Num -> bool) (types : list Ty) (ev : list (sol Val Num) -> list (jobres Val Num)) 
+         (T : Type) (vary : T -> list (sol Val Num) -> list (sol Val Num))
+         (mutate move : T -> sol Val Num -> sol Val Num) (sample : T -> sol Val Num) (Gen : sol Val Num -> Prop)
+         (cmp : sol Val Num -> sol Val Num -> Z) (arch_add : list (sol Val Num) -> sol Val Num -> list (sol Val Num)),
+       ev_spec Val Num Ty decode encode F C nabs nadd nzero niszero types ev ->
+       (forall (t : T) (ps : list (sol Val Num)) (c : sol Val Num),
+        In c (vary t ps) -> exists p : sol Val Num, In p ps /\ flag_discipline Val Num p c) ->
+       (forall (t : T) (p : sol Val Num), flag_discipline Val Num p (mutate t p)) ->
+       (forall (t : T) (p : sol Val Num), evaluated (move t p) = false) ->
+       (forall t : T, evaluated (sample t) = false) ->
+       (forall s : sol Val Num, Gen s -> evaluated s = false) ->
+       (forall (a : list (sol Val Num)) (s : sol Val Num), incl (arch_add a s) (s :: a)) ->
+       forall (tp : eps_tape T) (st : pa_st Val Num),
+       Forall (fun s : sol Val Num => evaluated s = true) (pa_exposed Val Num st) ->
+       step_ok Val Num ev (pa_exposed Val Num st)
+         {|
+           s_batches := snd (epsmoea_iterate Val Num ev T vary cmp arch_add tp st);
+           s_exposed := pa_exposed Val Num (fst (epsmoea_iterate Val Num ev T vary cmp arch_add tp st))
+         |}.
+Proof. exact epsmoea_step_ok. Qed.
+
+(* GDE3.iterate *)
+Theorem c01_gde3_step_ok :
+    forall (Val Num Ty : Type) (decode encode : Ty -> Val -> Val) (F : list Val -> list Num * list Num)
+         (C : list (Num -> Num)) (nabs : Num -> Num) (nadd : Num -> Num -> Num) (nzero : Num) 
+         (niszero : Num -> bool) (types : list Ty) (ev : list (sol Val Num) -> list (jobres Val Num)) 
+         (T : Type) (vary : T -> list (sol Val Num) -> list (sol Val Num))
+         (mutate move : T -> sol Val Num -> sol Val Num) (sample : T -> sol Val Num) (Gen : sol Val Num -> Prop)
+         (cmp : sol Val Num -> sol Val Num -> Z) (survive : list (sol Val Num) -> list (sol Val Num)),
+       ev_spec Val Num Ty decode encode F C nabs nadd nzero niszero types ev ->
+       (forall (t : T) (ps : list (sol Val Num)) (c : sol Val Num),
+        In c (vary t ps) -> exists p : sol Val Num, In p ps /\ flag_discipline Val Num p c) ->
+       (forall (t : T) (p : sol Val Num), flag_discipline Val Num p (mutate t p)) ->
+       (forall (t : T) (p : sol Val Num), evaluated (move t p) = false) ->
+       (forall t : T, evaluated (sample t) = false) ->
+       (forall s : sol Val Num, Gen s -> evaluated s = false) ->
+       (forall l : list (sol Val Num), incl (survive l) l) ->
+       forall (tape : list (list nat * T)) (pop : list (sol Val Num)),
+       Forall (fun s : sol Val Num => evaluated s = true) pop ->
+       step_ok Val Num ev pop
+         {|
+           s_batches := snd (gde3_iterate Val Num ev T vary cmp survive tape pop);
+           s_exposed := fst (gde3_iterate Val Num ev T vary cmp survive tape pop)
+         |}.
+Proof. exact gde3_step_ok. Qed.
+
+(* IBEA.iterate (removal loop) *)
+Theorem c01_ibea_step_ok :
+    forall (Val Num Ty : Type) (decode encode : Ty -> Val -> Val) (F : list Val -> list Num * list Num)
+         (C : list (Num -> Num)) (nabs : Num -> Num) (nadd : Num -> Num -> Num) (nzero : Num) 
+         (niszero : Num -> bool) (types : list Ty) (ev : list (sol Val Num) -> list (jobres Val Num)) 
+         (T : Type) (vary : T -> list (sol Val Num) -> list (sol Val Num))
+         (mutate move : T -> sol Val Num -> sol Val Num) (sample : T -> sol Val Num) (Gen : sol Val Num -> Prop)
+         (worst : list (sol Val Num) -> nat),
+       ev_spec Val Num Ty decode encode F C nabs nadd nzero niszero types ev ->
+       (forall (t : T) (ps : list (sol Val Num)) (c : sol Val Num),
+        In c (vary t ps) -> exists p : sol Val Num, In p ps /\ flag_discipline Val Num p c) ->
+       (forall (t : T) (p : sol Val Num), flag_discipline Val Num p (mutate t p)) ->
+       (forall (t : T) (p : sol Val Num), evaluated (move t p) = false) ->
+       (forall t : T, evaluated (sample t) = false) ->
+       (forall s : sol Val Num, Gen s -> evaluated s = false) ->
+       forall (size : nat) (tape : list (list nat * T)) (pop : list (sol Val Num)),
+       Forall (fun s : sol Val Num => evaluated s = true) pop ->
+       step_ok Val Num ev pop
+         {|
+           s_batches := snd (ibea_iterate Val Num ev T vary worst size tape pop);
+           s_exposed := fst (ibea_iterate Val Num ev T vary worst size tape pop)
+         |}.
+Proof. exact ibea_step_ok. Qed.
+
+(* PAES.iterate *)
+Theorem c01_paes_step_ok :
+    forall (Val Num Ty : Type) (decode encode : Ty -> Val -> Val) (F : list Val -> list Num * list Num)
+         (C : list (Num -> Num)) (nabs : Num -> Num) (nadd : Num -> Num -> Num) (nzero : Num) 
+         (niszero : Num -> bool) (types : list Ty) (ev : list (sol Val Num) -> list (jobres Val Num)) 
+         (T : Type) (vary : T -> list (sol Val Num) -> list (sol Val Num))
+         (mutate move : T -> sol Val Num -> sol Val Num) (sample : T -> sol Val Num) (Gen : sol Val Num -> Prop)
+         (cmp : sol Val Num -> sol Val Num -> Z) (test : list (sol Val Num) -> sol Val Num -> sol Val Num -> bool)
+         (arch_add : list (sol Val Num) -> sol Val Num -> list (sol Val Num))
+         (arch_added : list (sol Val Num) -> sol Val Num -> bool),
+       ev_spec Val Num Ty decode encode F C nabs nadd nzero niszero types ev ->
+       (forall (t : T) (ps : list (sol Val Num)) (c : sol Val Num),
+        In c (vary t ps) -> exists p : sol Val Num, In p ps /\ flag_discipline Val Num p c) ->
+       (forall (t : T) (p : sol Val Num), flag_discipline Val Num p (mutate t p)) ->
+       (forall (t : T) (p : sol Val Num), evaluated (move t p) = false) ->
+       (forall t : T, evaluated (sample t) = false) ->
+       (forall s : sol Val Num, Gen s -> evaluated s = false) ->
+       (forall (a : list (sol Val Num)) (s : sol Val Num), incl (arch_add a s) (s :: a)) ->
+       forall (t : T) (st : pa_st Val Num),
+       Forall (fun s : sol Val Num => evaluated s = true) (pa_exposed Val Num st) ->
+       step_ok Val Num ev (pa_exposed Val Num st)
+         {|
+           s_batches := snd (paes_iterate Val Num ev T vary cmp test arch_add arch_added t st);
+           s_exposed := pa_exposed Val Num (fst (paes_iterate Val Num ev T vary cmp test arch_add arch_added t st))
+         |}.
+Proof. exact paes_step_ok. Qed.
+
+(* PESA2.iterate *)
+Theorem c01_pesa2_step_ok :
+    forall (Val Num Ty : Type) (decode encode : Ty -> Val -> Val) (F : list Val -> list Num * list Num)
+         (C : list (Num -> Num)) (nabs : Num -> Num) (nadd : Num -> Num -> Num) (nzero : Num) 
+         (niszero : Num -> bool) (types : list Ty) (ev : list (sol Val Num) -> list (jobres Val Num)) 
+         (T : Type) (vary : T -> list (sol Val Num) -> list (sol Val Num))
+         (mutate move : T -> sol Val Num -> sol Val Num) (sample : T -> sol Val Num) (Gen : sol Val Num -> Prop)
+         (arch_add : list (sol Val Num) -> sol Val Num -> list (sol Val Num)),
+       ev_spec Val Num Ty decode encode F C nabs nadd nzero niszero types ev ->
+       (forall (t : T) (ps : list (sol Val Num)) (c : sol Val Num),
+        In c (vary t ps) -> exists p : sol Val Num, In p ps /\ flag_discipline Val Num p c) ->
+       (forall (t : T) (p : sol Val Num), flag_discipline Val Num p (mutate t p)) ->
+       (forall (t : T) (p : sol Val Num), evaluated (move t p) = false) ->
+       (forall t : T, evaluated (sample t) = false) ->
+       (forall s : sol Val Num, Gen s -> evaluated s = false) ->
+       (forall (a : list (sol Val Num)) (s : sol Val Num), incl (arch_add a s) (s :: a)) ->
+       forall (tape : list (list nat * T)) (st : pa_st Val Num),
+       Forall (fun s : sol Val Num => evaluated s = true) (pa_exposed Val Num st) ->
+       step_ok Val Num ev (pa_exposed Val Num st)
+         {|
+           s_batches := snd (pesa2_iterate Val Num ev T vary arch_add tape st);
+           s_exposed := pa_exposed Val Num (fst (pesa2_iterate Val Num ev T vary arch_add tape st))
+         |}.
+Proof. exact pesa2_step_ok. Qed.
+
+(* ParticleSwarm.initialize (OMOPSO: with archive) *)
+Theorem c01_pso_initialize_step_ok :
+    forall (Val Num Ty : Type) (decode encode : Ty -> Val -> Val) (F : list Val -> list Num * list Num)
+         (C : list (Num -> Num)) (nabs : Num -> Num) (nadd : Num -> Num -> Num) (nzero : Num) 
+         (niszero : Num -> bool) (types : list Ty) (ev : list (sol Val Num) -> list (jobres Val Num)) 
+         (T : Type) (vary : T -> list (sol Val Num) -> list (sol Val Num))
+         (mutate move : T -> sol Val Num -> sol Val Num) (sample : T -> sol Val Num) (Gen : sol Val Num -> Prop)
+         (trunc : list (sol Val Num) -> list (sol Val Num))
+         (arch_add lead_add : list (sol Val Num) -> sol Val Num -> list (sol Val Num)),
+       ev_spec Val Num Ty decode encode F C nabs nadd nzero niszero types ev ->
+       (forall (t : T) (ps : list (sol Val Num)) (c : sol Val Num),
+        In c (vary t ps) -> exists p : sol Val Num, In p ps /\ flag_discipline Val Num p c) ->
+       (forall (t : T) (p : sol Val Num), flag_discipline Val Num p (mutate t p)) ->
+       (forall (t : T) (p : sol Val Num), evaluated (move t p) = false) ->
+       (forall t : T, evaluated (sample t) = false) ->
+       (forall s : sol Val Num, Gen s -> evaluated s = false) ->
+       (forall l : list (sol Val Num), incl (trunc l) l) ->
+       (forall (a : list (sol Val Num)) (s : sol Val Num), incl (arch_add a s) (s :: a)) ->
+       (forall (a : list (sol Val Num)) (s : sol Val Num), incl (lead_add a s) (s :: a)) ->
+       forall (injected : list (sol Val Num)) (arch0 : option (list (sol Val Num))) (gen : list (sol Val Num)),
+       generated Val Num Gen injected gen ->
+       incl (oarch Val Num arch0) injected ->
+       Forall (fun s : sol Val Num => evaluated s = true) injected ->
+       step_ok Val Num ev injected
+         {|
+           s_batches := snd (pso_initialize Val Num ev trunc arch_add lead_add arch0 gen);
+           s_exposed := pso_exposed Val Num (fst (pso_initialize Val Num ev trunc arch_add lead_add arch0 gen))
+         |}.
+Proof. exact pso_initialize_step_ok. Qed.
+
+(* ParticleSwarm.iterate (OMOPSO with archive, SMPSO without) *)
+Theorem c01_pso_step_ok :
+    forall (Val Num Ty : Type) (decode encode : Ty -> Val -> Val) (F : list Val -> list Num * list Num)
+         (C : list (Num -> Num)) (nabs : Num -> Num) (nadd : Num -> Num -> Num) (nzero : Num) 
+         (niszero : Num -> bool) (types : list Ty) (ev : list (sol Val Num) -> list (jobres Val Num)) 
+         (T : Type) (vary : T -> list (sol Val Num) -> list (sol Val Num))
+         (mutate move : T -> sol Val Num -> sol Val Num) (sample : T -> sol Val Num) (Gen : sol Val Num -> Prop)
+         (cmp : sol Val Num -> sol Val Num -> Z) (trunc : list (sol Val Num) -> list (sol Val Num))
+         (arch_add lead_add : list (sol Val Num) -> sol Val Num -> list (sol Val Num)),
+       ev_spec Val Num Ty decode encode F C nabs nadd nzero niszero types ev ->
+       (forall (t : T) (ps : list (sol Val Num)) (c : sol Val Num),
+        In c (vary t ps) -> exists p : sol Val Num, In p ps /\ flag_discipline Val Num p c) ->
+       (forall (t : T) (p : sol Val Num), flag_discipline Val Num p (mutate t p)) ->
+       (forall (t : T) (p : sol Val Num), evaluated (move t p) = false) ->
+       (forall t : T, evaluated (sample t) = false) ->
+       (forall s : sol Val Num, Gen s -> evaluated s = false) ->
+       (forall l : list (sol Val Num), incl (trunc l) l) ->
+       (forall (a : list (sol Val Num)) (s : sol Val Num), incl (arch_add a s) (s :: a)) ->
+       (forall (a : list (sol Val Num)) (s : sol Val Num), incl (lead_add a s) (s :: a)) ->
+       forall (tape : list (T * option T)) (st : pso_st Val Num),
+       Forall (fun s : sol Val Num => evaluated s = true) (pso_exposed Val Num st) ->
+       step_ok Val Num ev (pso_exposed Val Num st)
+         {|
+           s_batches := snd (pso_iterate Val Num ev T mutate move cmp trunc arch_add lead_add tape st);
+           s_exposed :=
+             pso_exposed Val Num (fst (pso_iterate Val Num ev T mutate move cmp trunc arch_add lead_add tape st))
+         |}.
+Proof. exact pso_step_ok. Qed.
+
+(* CMAES.iterate (= step; initialize ends with iterate) *)
+Theorem c01_cmaes_step_ok :
+    forall (Val Num Ty : Type) (decode encode : Ty -> Val -> Val) (F : list Val -> list Num * list Num)
+         (C : list (Num -> Num)) (nabs : Num -> Num) (nadd : Num -> Num -> Num) (nzero : Num) 
+         (niszero : Num -> bool) (types : list Ty) (ev : list (sol Val Num) -> list (jobres Val Num)) 
+         (T : Type) (vary : T -> list (sol Val Num) -> list (sol Val Num))
+         (mutate move : T -> sol Val Num -> sol Val Num) (sample : T -> sol Val Num) (Gen : sol Val Num -> Prop)
+         (sortf : list (sol Val Num) -> list (sol Val Num))
+         (arch_add : list (sol Val Num) -> sol Val Num -> list (sol Val Num)),
+       ev_spec Val Num Ty decode encode F C nabs nadd nzero niszero types ev ->
+       (forall (t : T) (ps : list (sol Val Num)) (c : sol Val Num),
+        In c (vary t ps) -> exists p : sol Val Num, In p ps /\ flag_discipline Val Num p c) ->
+       (forall (t : T) (p : sol Val Num), flag_discipline Val Num p (mutate t p)) ->
+       (forall (t : T) (p : sol Val Num), evaluated (move t p) = false) ->
+       (forall t : T, evaluated (sample t) = false) ->
+       (forall s : sol Val Num, Gen s -> evaluated s = false) ->
+       (forall l : list (sol Val Num), incl (sortf l) l) ->
+       (forall (a : list (sol Val Num)) (s : sol Val Num), incl (arch_add a s) (s :: a)) ->
+       forall (ts : list T) (st : pa_st Val Num),
+       Forall (fun s : sol Val Num => evaluated s = true) (pa_exposed Val Num st) ->
+       step_ok Val Num ev (pa_exposed Val Num st)
+         {|
+           s_batches := snd (cmaes_iterate Val Num ev T sample sortf arch_add ts st);
+           s_exposed := pa_exposed Val Num (fst (cmaes_iterate Val Num ev T sample sortf arch_add ts st))
+         |}.
+Proof. exact cmaes_step_ok. Qed.
+
+(* MOEAD.iterate (one evaluate_all per subproblem, in-place replacement) *)
+Theorem c01_moead_step_ok :
+    forall (Val Num Ty : Type) (decode encode : Ty -> Val -> Val) (F : list Val -> list Num * list Num)
+         (C : list (Num -> Num)) (nabs : Num -> Num) (nadd : Num -> Num -> Num) (nzero : Num) 
+         (niszero : Num -> bool) (types : list Ty) (ev : list (sol Val Num) -> list (jobres Val Num)) 
+         (T : Type) (vary : T -> list (sol Val Num) -> list (sol Val Num))
+         (mutate move : T -> sol Val Num -> sol Val Num) (sample : T -> sol Val Num) (Gen : sol Val Num -> Prop)
+         (better : sol Val Num -> sol Val Num -> nat -> bool),
+       ev_spec Val Num Ty decode encode F C nabs nadd nzero niszero types ev ->
+       (forall (t : T) (ps : list (sol Val Num)) (c : sol Val Num),
+        In c (vary t ps) -> exists p : sol Val Num, In p ps /\ flag_discipline Val Num p c) ->
+       (forall (t : T) (p : sol Val Num), flag_discipline Val Num p (mutate t p)) ->
+       (forall (t : T) (p : sol Val Num), evaluated (move t p) = false) ->
+       (forall t : T, evaluated (sample t) = false) ->
+       (forall s : sol Val Num, Gen s -> evaluated s = false) ->
+       forall (arity eta : nat) (items : list (moead_item T)) (pop : list (sol Val Num)),
+       Forall (fun s : sol Val Num => evaluated s = true) pop ->
+       step_ok Val Num ev pop
+         {|
+           s_batches := snd (moead_iterate Val Num ev T vary better arity eta items pop);
+           s_exposed := fst (moead_iterate Val Num ev T vary better arity eta items pop)
+         |}.
+Proof. exact moead_step_ok. Qed.
+
+(* generic form: any model step whose data flow is ok (flow_ok: everything submitted is derived from the pool by
+   copy / variation / position update / sampling / generation, everything exposed comes from the pool or the
+   evaluated batches) keeps every exposed solution Good *)
+Theorem c01_model_step_good :
+    forall (Val Num Ty : Type) (decode encode : Ty -> Val -> Val) (F : list Val -> list Num * list Num)
+         (C : list (Num -> Num)) (nabs : Num -> Num) (nadd : Num -> Num -> Num) (nzero : Num) 
+         (niszero : Num -> bool) (types : list Ty) (ev : list (sol Val Num) -> list (jobres Val Num)) 
+         (T : Type) (vary : T -> list (sol Val Num) -> list (sol Val Num))
+         (mutate move : T -> sol Val Num -> sol Val Num) (sample : T -> sol Val Num) (Gen : sol Val Num -> Prop),
+       (forall (t : Ty) (v : Val), In t types -> decode t (encode t (decode t v)) = decode t v) ->
+       ev_spec Val Num Ty decode encode F C nabs nadd nzero niszero types ev ->
+       (forall (t : T) (ps : list (sol Val Num)) (c : sol Val Num),
+        In c (vary t ps) -> exists p : sol Val Num, In p ps /\ flag_discipline Val Num p c) ->
+       (forall (t : T) (p : sol Val Num), flag_discipline Val Num p (mutate t p)) ->
+       (forall (t : T) (p : sol Val Num), evaluated (move t p) = false) ->
+       (forall t : T, evaluated (sample t) = false) ->
+       (forall s : sol Val Num, Gen s -> evaluated s = false) ->
+       forall (pool : list (sol Val Num)) (bs : list (batch Val Num)) (exposed' : list (sol Val Num)),
+       Forall (Good Val Num Ty decode F C nabs nadd nzero niszero types) pool ->
+       flow_ok Val Num ev T vary mutate move sample Gen pool bs exposed' ->
+       Forall (Good Val Num Ty decode F C nabs nadd nzero niszero types) exposed'.
+Proof. exact flow_good. Qed.
